@@ -391,6 +391,10 @@ func c08(run *core.Run, replay string) {
 		{"bwt-ans", cfg("BWT", "ANS0", 262144, 1, 64), "wav", 1500000, S},
 		{"small-one-flush", cfg("TEXT", "FPAQ", 4096, 1, 32), "text", 50000, S}, // everything fits the buffer: the only sink write is in Close
 		{"headerless", kz.Cfg{Transform: "NONE", Entropy: "NONE", BlockSize: 65536, Jobs: 1, Checksum: 0, Headerless: true}, "random", 700000, S},
+		// blocks whose compressed form is >= 256 KiB (the bulk path of the bitstream), several of them, payloads starting on / off byte boundaries
+		{"none-512K-blocks", cfg("NONE", "NONE", 512<<10, 1, 0), "random", 5*(512<<10) - 4000, S},
+		{"none-512K-blocks-ck32", cfg("NONE", "NONE", 512<<10, 1, 32), "random", 5*(512<<10) - 4000, S},
+		{"none-8MiB-block", cfg("NONE", "NONE", 8<<20, 1, 0), "random", 8<<20 - 100, S},
 		{"hint", kz.Cfg{Transform: "RLT", Entropy: "NONE", BlockSize: 65536, Jobs: 1, Hint: -1}, "random", 600000, S},
 	}
 	// streams whose end marker lands exactly on the flush threshold of the 256 KiB bitstream buffer
